@@ -87,6 +87,11 @@ int main(void)
     {
         return 2;
     }
+    if (controlHandshakes(v_tls_1_3, TLS_AES_128_GCM_SHA256) < 0)
+    {
+        printf("CONTROL FAILED\n");
+        return 3;
+    }
     sk = loadServerKeys(0);     /* no ticket keys: the real server sends no NST */
     ck = loadClientKeys(0);
     matrixSslNewSessionId(&sid, NULL);
@@ -139,9 +144,10 @@ int main(void)
     rc = feed(cli, out, n, NULL, NULL);
     printf("client after premature NewSessionTicket: rc=%d hsState=%d flags.error=%d\n",
         rc, cli->hsState, !!(cli->flags & SSL_FLAGS_ERROR));
-    if (rc < 0)
+    if (rejected(cli, rc))
     {
-        printf("client rejected the premature NewSessionTicket: no violation\n");
+        printf("OK: client rejected the premature NewSessionTicket (rc %d, alert %d)\n",
+            rc, cli->err);
         return 0;
     }
     n = tls13Seal(key, iv, 4, 22, fin, finLen, out);
@@ -181,6 +187,6 @@ int main(void)
             "all-zero resumption_master_secret" : "");
         return 1;
     }
-    printf("no violation\n");
+    printf("OK: handshake did not complete\n");
     return 0;
 }
